@@ -194,6 +194,19 @@ def ownership_scan():
                 visit(child, il, f2)
         visit(tree, False, '')
     yield ('socket-calls-on-self._sock-only-under-the-lock(%d call sites)' % n_calls, not bad and n_calls >= 3, None if not bad else dict(sites=bad), 'AST scan')
+    # C11: a frame is handed to write() in ONE piece - send / send_compressed call self.write exactly once, outside any loop
+    # (a frame written in slices releases the lock between them)
+    import ast as _ast
+    tree = _ast.parse(open(os.path.join(root, 'session.py')).read())
+    pieces = []
+    for node in _ast.walk(tree):
+        if isinstance(node, _ast.FunctionDef) and node.name in ('send', 'send_compressed'):
+            calls = [c for c in _ast.walk(node) if isinstance(c, _ast.Call) and _ast.unparse(c.func) == 'self.write']
+            in_loop = [c for l in _ast.walk(node) if isinstance(l, (_ast.For, _ast.While)) for c in _ast.walk(l)
+                       if isinstance(c, _ast.Call) and _ast.unparse(c.func) == 'self.write']
+            if len(calls) != 1 or in_loop:
+                pieces.append('%s: %d write call(s), %d inside a loop' % (node.name, len(calls), len(in_loop)))
+    yield ('each-frame-is-written-by-a-single-write-call(send, send_compressed)', not pieces, dict(sites=pieces) if pieces else None, 'AST scan')
     # the session's socket is forgotten (self._sock = None) only where it has just been closed
     yield ('session._sock-cleared-only-in-__init__-_close_socket-and-close', not (sock_clearers - {'session:WebsocketSession.__init__',
            'session:WebsocketSession._close_socket', 'session:WebsocketSession.close'}), dict(others=sorted(sock_clearers)) if sock_clearers - {
